@@ -30,6 +30,9 @@ class EncOps5(cc.Enc5Part):
         return ";3," in case or any(f.startswith("1,") for f in obs.split(";"))
 
 
+PROPS_FILES = ["C08", "C08sink"]
+
+
 def parts(tier, rng):
     n3 = cc.sized(tier, 60, 600)
     n5 = cc.sized(tier, 30, 300)
